@@ -51,6 +51,7 @@ func init() {
 		i, has := bmtree.PathToIndexLoose(c05Full(h), w)
 		return L(I32(i), I32(has), U(bmtree.IndexToPath(h, i)))
 	}
+	Exec["bmtree.Height/full"] = func(a []V) string { return I32(bmtree.Height(c05Full(a[0].I32()))) }
 	Register("C05", genC05)
 }
 
@@ -299,6 +300,12 @@ func genC05(g *Gen) {
 		}
 		g.Do("bmtree.PathToIndexLoose/full", L(Int(h), c10Node(v, l)), key)
 	}
+
+	for h := 0; h <= 30; h++ {
+		g.Stat("height")
+		g.Do("bmtree.Height/full", L(Int(h)), fmt.Sprintf("height/%d", h))
+	}
+	g.Exhaust = append(g.Exhaust, "Height(2^(h+1)-1) for every h in 0..30")
 
 	// (1) exhaustive: heights 0..12 x every index (this includes the whole idxToPath table through the API)
 	for h := 0; h <= 12; h++ {
